@@ -552,8 +552,47 @@ pub fn level4() -> Vec<Value> {
 }
 
 /// The whole value corpus up to `depth` (0 = leaves only), simplest first.
+/// Long payloads: strings, symbols and binaries beyond the sizes at which a reader or writer may switch to working
+/// in chunks (4 KiB, 8 KiB, 64 KiB), with contents that are not uniform, and multi-byte text whose character count
+/// and octet count lie on different sides of the 8-bit width boundary.  Top level only (they are not used as
+/// elements of the nested levels, nor in pairwise products).
+pub fn long_leaves() -> Vec<Value> {
+    let text = |n: usize| -> String { (0..n).map(|i| (b'a' + (i % 23) as u8) as char).collect() };
+    let mut v = vec![];
+    for n in [4095usize, 4096, 4097, 8192, 8193, 70_000] {
+        v.push(Value::String(text(n)));
+        v.push(Value::Symbol(serde_amqp::primitives::Symbol::from(text(n))));
+        v.push(Value::Binary(serde_bytes::ByteBuf::from((0..n).map(|i| (i % 251) as u8).collect::<Vec<u8>>())));
+    }
+    // 2-byte and 3-byte characters: 130 x 2 = 260 octets, 100 x 3 = 300 octets, 127 x 2 = 254, 128 x 2 = 256
+    for (n, ch) in [(130usize, '\u{fc}'), (100, '\u{20ac}'), (127, '\u{fc}'), (128, '\u{fc}'), (85, '\u{20ac}')] {
+        v.push(Value::String(std::iter::repeat(ch).take(n).collect()));
+    }
+    // the same inside a list and as a map value, where the enclosing size field depends on them
+    v.push(Value::List(vec![Value::String(std::iter::repeat('\u{fc}').take(130).collect()), Value::Uint(1)]));
+    v.push(map(vec![(Value::String("k".into()), Value::String(std::iter::repeat('\u{fc}').take(130).collect()))]));
+    v.push(Value::List(vec![Value::Binary(serde_bytes::ByteBuf::from((0..5000usize).map(|i| (i % 251) as u8).collect::<Vec<u8>>())), Value::Uint(1)]));
+    // deep nesting, one compound kind per tower and mixed (the library bounds recursion: its decoder accepts 63 levels; the towers leave room for the wrappers some checks add)
+    for depth in [20usize, 42, 43, 52, 60] {
+        for kind in 0..5usize {
+            let mut x = Value::Uint(7);
+            for level in 0..depth {
+                x = match if kind == 4 { level % 4 } else { kind } {
+                    0 => Value::List(vec![x]),
+                    1 => map(vec![(Value::Uint(1), x)]),
+                    2 => map(vec![(x, Value::Uint(1))]),
+                    _ => described(Descriptor::Code(0x24), x),
+                };
+            }
+            v.push(x);
+        }
+    }
+    v
+}
+
 pub fn values(depth: usize) -> Vec<Value> {
     let mut out = leaves();
+    out.extend(long_leaves());
     if depth >= 1 {
         out.extend(level1());
     }
